@@ -131,6 +131,8 @@ func NewDriver(
 	}
 
 	d := &Driver{
+		Logger: gd.Logger,
+
 		TransportType: gd.TransportType,
 		Transport:     gd.Transport,
 		Channel:       gd.Channel,
